@@ -310,6 +310,22 @@ def gen_paxis_case(rng):
         tg = gen_ptargets(rng, asc, P, rng.randint(2, 8))
         k = rng.choice([-2, -1, 1, 2])
         tg = tg + [("shifted", v + k * P) for _, v in tg]
+        if rng.random() < 0.2:
+            # exactly the grid's own nodes, as many targets as nodes, in another order or convention (a [0,360)
+            # grid requested as [-180,180), rolled, reversed, one period up): the result is labelled with the
+            # REQUESTED values in the REQUESTED order
+            how = rng.choice(["rolled", "reversed", "plus-period", "other-convention"])
+            nodes = list(asc)
+            if how == "rolled":
+                r_ = rng.randrange(1, len(nodes)) if len(nodes) > 1 else 0
+                nodes = nodes[r_:] + nodes[:r_]
+            elif how == "reversed":
+                nodes = nodes[::-1]
+            elif how == "plus-period":
+                nodes = [v + P for v in nodes]
+            else:
+                nodes = [v - P if v >= asc[0] + P / 2 else v for v in nodes]
+            tg = [("node-set:" + how, v) for v in nodes]
         period = P
     else:
         kind = "time" if rng.random() < 0.5 else "float"
@@ -454,7 +470,7 @@ def stream_paxis(ctx, ncases):
             ctx.tally("paxis-nan:%s" % inf["nan"])
             bad = False
             # ---- oracles
-            if m["period"] is not None:
+            if m["period"] is not None and not str(m["tg"][0][0]).startswith("node-set"):
                 half = len(xs) // 2
                 for j in range(half, len(xs)):
                     u, v = grows[j - half], grows[j]
